@@ -527,3 +527,68 @@ def gen_deadlock(rng):
     pre = [("pe", 1, 0, 1)] if rng.random() < 0.5 else []
     case["cmds"] = pre + roots + [("st",), ("pe", 0, 0, 9)]
     return case
+
+
+def gen_triangle(rng):
+    """C02 family: A -> B, then A -> C, and C (processing that message) -> B, with mailboxes of
+    capacity 1..3 so that senders suspend; several roots; optional extra relay D between C and B."""
+    cap = lambda: rng.choice([1, 1, 2, 3])
+    relay = rng.random() < 0.4
+    a = {"cap": cap(), "handlers": [[("snd", 0, "in"), ("snd", 1, ("ip", 1))]],
+         "outs": [[("all", 0, ("m", 1, 0))], [("all", 0, ("m", 2, 0))]]}
+    b = {"cap": cap(), "handlers": [[]], "outs": []}
+    if relay:
+        c = {"cap": cap(), "handlers": [[("snd", 0, "in")]], "outs": [[("all", 0, ("m", 3, 0))]]}
+        d = {"cap": cap(), "handlers": [[("snd", 0, ("ip", 1000))]], "outs": [[("all", 0, ("m", 1, 0))]]}
+        models = [a, b, c, d]
+    else:
+        c = {"cap": cap(), "handlers": [[("snd", 0, ("ip", 1000))]], "outs": [[("all", 0, ("m", 1, 0))]]}
+        models = [a, b, c]
+    roots = [10 * (k + 1) for k in range(rng.randint(1, 5))]
+    case = {"models": models, "sinks": [], "mode": "multiset", "tags": {"triangle"}, "t0": 0, "clock": [], "sources": [],
+            "meta": {"roots": roots}}
+    cmds = []
+    if rng.random() < 0.5:
+        # all roots in one step, from one origin: one sequential task, A processes them in order
+        for v in roots:
+            cmds.append(("se", ("a", 10), 0, 0, v, None, None))
+        cmds.append(("st",))
+        case["meta"]["sequential_roots"] = True
+    else:
+        for v in roots:
+            cmds.append(("pe", 0, 0, v))
+        case["meta"]["sequential_roots"] = True
+    case["cmds"] = cmds
+    return case
+
+
+def gen_query(rng):
+    """C14 family: one requester with 0..6 repliers over 1-3 replier models, arbitrary subsets filtered
+    out (even / lt filters on the request), request and reply maps, replier mailboxes of capacity 1
+    (slow repliers: the per-replier sub-sends block and complete in varying orders), nested queries."""
+    nrep = rng.randint(1, 3)
+    models = [{"cap": 4, "handlers": [[("qry", 0, "in")], [("qry", 0, ("ip", 1)), ("qry", 1, "in")]], "repliers": [], "outs": [], "reqs": []}]
+    for j in range(nrep):
+        nested = [("qry", 0, "in")] if (j + 1 < nrep and rng.random() < 0.4) else []
+        m = {"cap": rng.choice([1, 1, 2]), "handlers": [[]], "repliers": [(nested, rng.choice([10, 20])), ([], rng.choice([30, 40]))],
+             "outs": [], "reqs": [[("all", 0, j + 2, 0, 0)]] if nested else []}
+        models.append(m)
+    for port in range(2):
+        qs = []
+        for _ in range(rng.randint(0, 6)):
+            qs.append((rng.choice(["all", "all", "even", ("lt", 50)]), rng.choice([0, 1, 5]), rng.randint(1, nrep), rng.randrange(2),
+                       rng.choice([0, 100])))
+        models[0]["reqs"].append(qs)
+    case = {"models": models, "sinks": [], "mode": "multiset", "tags": {"query"}, "t0": 0, "clock": [], "sources": []}
+    cmds, val = [], 0
+    for _ in range(rng.randint(1, 6)):
+        val += rng.choice([1, 2, 7, 50])
+        r = rng.random()
+        if r < 0.6:
+            cmds.append(("pe", 0, rng.randrange(2), val))
+        elif r < 0.8:
+            cmds.append(("pq", rng.randint(1, nrep), rng.randrange(2), val))
+        else:
+            cmds.append(("se", ("r", 10), 0, rng.randrange(2), val, None, None)); cmds.append(("st",))
+    case["cmds"] = cmds
+    return case
